@@ -498,3 +498,48 @@ def _setter_curvature(repo, record):
                    'accepted by %s() and only fails later, in do_math()'
                    % (fq, want, 'concave' if want == -1 else 'convex', fi.name))
     return n
+
+
+def _piecewise_add_sign(repo, res):
+    from rsx.webs import reaching_values
+    from .common import expand_locals, single_defs
+    n_sites = 0
+    for fq in ('lp.PiecewiseConvex.__add__',):
+        fi = repo.func(fq)
+        res.functions.add(fq)
+        reach = reaching_values(fi.node)
+        sdefs = single_defs(fi.node)
+        comps = [n for n in walk_no_nested(fi.node) if isinstance(n, ast.ListComp) and len(n.generators) == 1 and
+                 ntext(n.generators[0].iter) == 'self.pieces' and isinstance(n.elt, ast.BinOp) and
+                 isinstance(n.elt.op, ast.Add)]
+        if len(comps) != 1:
+            raise AnalysisError('%s: the sum [piece + <term> for piece in self.pieces] was not found' % fq)
+        pv = comps[0].generators[0].target.id if isinstance(comps[0].generators[0].target, ast.Name) else None
+        elt = comps[0].elt
+        term = elt.right if isinstance(elt.left, ast.Name) and elt.left.id == pv else \
+            elt.left if isinstance(elt.right, ast.Name) and elt.right.id == pv else None
+        if term is None:
+            raise AnalysisError('%s: `%s` is not piece + <term>' % (fq, ntext(elt)[:40]))
+
+        def has_sign(e):
+            return any(isinstance(x, ast.Attribute) and x.attr == 'sign' and ntext(x.value) == 'self' for x in ast.walk(e))
+        cases = []
+        if isinstance(term, ast.Name):
+            vals = reach.get(id(term))
+            if not vals or any(v is None for v in vals):
+                raise AnalysisError('%s: the definitions of the added term `%s` are not followed' % (fq, term.id))
+            cases = [expand_locals(fi.node, v, defs=sdefs) for v in vals]
+        else:
+            cases = [expand_locals(fi.node, term, defs=sdefs)]
+        for c in cases:
+            n_sites += 1
+            ok = has_sign(c)
+            res.inst({'function': fq, 'added term': ntext(c)[:50], 'carries_self.sign': ok}, ok)
+            if not ok:
+                res.fail(Finding('R37', fq, 'added term without the sign factor',
+                                 '%s adds `%s` to every piece on some path: the pieces are stored multiplied by self.sign, '
+                                 'so for a concave function (sign -1) the term enters with the wrong sign and the accepted '
+                                 'constraint is not the one written' % (fq, ntext(c)[:50]), repo.where(fi, comps[0]),
+                                 {'props': ['C10', 'C01']}))
+    if n_sites < 1:
+        raise AnalysisError('R37: no added term found')
